@@ -150,7 +150,7 @@ func containsNL(s string) bool {
 
 // lighten drops what is not needed once a case is summarised and emitted.
 func lighten(c *Case) {
-	c.A.Cfg, c.A.Full, c.A.Annot = nil, "", ""
+	c.A.Cfg, c.A.Full, c.A.Annot, c.A.Asm = nil, "", "", nil
 	c.R2.Cfg, c.R2.Full, c.R2.Annot = nil, "", ""
 	c.B, c.R3 = obs{}, obs{}
 	c.PrintedA, c.Printed2 = nil, nil
